@@ -66,6 +66,11 @@ func checkLiteral(s string) (msg string, class string) {
 				return fmt.Sprintf("%s: literal %q evaluated to %s, it denotes %s", f, s, got.String(), val), "valid"
 			}
 		}
+		// the literal as the whole formula (its value is handed back by reference): evaluates, and - through the
+		// repeat / re-read checks of obs.EvalText - keeps evaluating to the same float64
+		if top := obs.EvalText(s, nil); top.Panic != nil || top.Err != nil {
+			return fmt.Sprintf("the literal %q as a whole formula: %s", s, top), "valid"
+		}
 		return "", "valid"
 	case lr.Err && lr.Tokens[0].Kind == "num" && lr.GoodTokens == 0:
 		// malformed literal: must be a syntax error in every context
